@@ -333,4 +333,35 @@ def run(ctx):
         ctx.case(["scale0trusted", rep["instance"], rep["kwargs"]], nontrivial=True); ctx.count("E2_scale0_equals_ignore_trusted", "cases")
         if res[0][0] != res[1][0] or (res[0][0] is True and not same(res[0][1], res[1][1])):
             ctx.report(f"{name}: with trusted edges for safety, ignoring gives {res[0]} but error scale 0 on the same elements gives {res[1]}", rep)
+    # (8) elements_to_ignore_percentile (kMinPathErrorCycles): the documented shorthand for ignoring every element whose value is
+    #     below the percentile -- must behave exactly like passing that list as elements_to_ignore, in edge and node mode
+    import numpy as np
+    for i in range(ctx.budget(60, 1200)):
+        rng = ctx.rng("pct", i)
+        node = rng.random() < 0.4
+        info = zoo.make(rng, "kMinPathErrorCycles", node=node, with_cons=rng.random() < 0.2, with_ignore=False, with_starts=False,
+                        exact=rng.random() < 0.5)
+        G = info["G"]; kw = dict(info["kwargs"]); kw.pop("elements_to_ignore", None)
+        pct = rng.choice([0, 10, 25, 50, 75, 90, 100, 33.3])
+        elems = list(G.nodes()) if node else list(G.edges())
+        val = (lambda x: G.nodes[x].get("flow")) if node else (lambda x: G.edges[x].get("flow"))
+        vals = [val(x) for x in elems if val(x) is not None]
+        thr = np.percentile(vals, pct) if vals else 0
+        explicit = [x for x in elems if val(x) is not None and val(x) < thr]
+        rep = {"class": "kMinPathErrorCycles", "instance": zoo.describe(info), "elements_to_ignore_percentile": pct,
+               "equivalent_elements_to_ignore": explicit, "threshold": float(thr)}
+        res = []
+        for extra in ({"elements_to_ignore_percentile": pct}, {"elements_to_ignore": explicit}):
+            try:
+                mv = fp.kMinPathErrorCycles(G, **kw, **extra); mv.solve()
+                res.append((mv.is_solved(), objective(mv, "kMinPathErrorCycles") if mv.is_solved() else None))
+            except ValueError as e:
+                res.append(("ValueError", str(e)[:100]))
+            except Exception as e:
+                res.append((f"raise:{type(e).__name__}", str(e)[:100]))
+        ctx.case(["pct", rep["instance"], pct], nontrivial=bool(explicit)); ctx.count("E2_ignore_percentile", "cases")
+        ctx.dist("percentile-node" if node else "percentile-edge")
+        if res[0][0] != res[1][0] or (res[0][0] is True and not same(res[0][1], res[1][1])):
+            ctx.report(f"kMinPathErrorCycles: elements_to_ignore_percentile={pct} gives {res[0]} but the equivalent explicit "
+                       f"elements_to_ignore list gives {res[1]}", rep)
     gencheck.run_generated(ctx, ["max_occurrence"])      # generated-model tie of graphutils.max_occurrence (coq/gen_proofs)
